@@ -246,6 +246,7 @@ def check(repo: Repo, R) -> None:
                                  "a module on which a checking pass failed is exported by the next call (the failure was not recorded, the checks are cached as done): the package is ill-formed"))
     R.run(c03.slice_inner, repo, shared.Retag(R, lambda r: "C06.7-targets-stay-inside-widths" if "index-bounds" in r else None,
                                        "a connection target names a bit outside its signal (e.g. bus[w] exported as slice [w:w] of a w-bit bus)"), "C02")
+    R.run(widths_read_when_checked, repo, R)
     R.run(c02.live_passes, repo, shared.Retag(R, lambda r: "C06.8-post-flattening-checks-live",
                                        "the flattened design is exported without its final connection checks: instances with unconnected or mis-sized ports reach the package"))
     # a module that has been checked (and exported) stays as checked: it accepts no further attribute of any kind — every
@@ -258,3 +259,30 @@ def check(repo: Repo, R) -> None:
     R.floor("C06.1-definition-before-use", 5)
     R.floor("C06.5-instance-targets", 16)
     R.floor("C06.4-per-kind-views-disjoint", 2)
+
+
+def widths_read_when_checked(repo: Repo, R):
+    """A slice resolves its range against its parent's width once and keeps the result.  The checks read it during
+    elaboration, when widths are final — so nothing that runs when the slice is written may already ask for it."""
+    rule = "C06.7-targets-stay-inside-widths"
+    RESOLVED = {"top", "bot", "step", "width", "_inner"}
+    fs = repo.func(F_SLICEABLE, "_slice")
+    made = [st.targets[0].id for st in au.stmts(fs.node) if isinstance(st, ast.Assign) and len(st.targets) == 1 and isinstance(st.targets[0], ast.Name) and isinstance(st.value, ast.Call) and (dotted(st.value.func) or "").split(".")[-1] == "Slice"]
+    rets = [r for r in shared.returns_of(fs.node) if r.value is not None]
+    if not rets:
+        raise AnalysisError(f"idiom-unknown: {fs.site} returns nothing")
+    sites = [(fs, made, fs.node)]
+    ci = repo.cls(F_SLICE, "Slice")
+    for nm in ("__post_init__", "__init__"):
+        if nm in ci.methods:
+            sites.append((ci.methods[nm], [ci.methods[nm].node.args.args[0].arg], ci.methods[nm].node))
+    n = 0
+    for fi, names, node in sites:
+        n += 1
+        early = [x for x in au.walk_no_nested(node) if (isinstance(x, ast.Attribute) and isinstance(x.ctx, ast.Load) and x.attr in RESOLVED and isinstance(x.value, ast.Name) and x.value.id in names)
+                 or (isinstance(x, ast.Call) and (dotted(x.func) or "").split(".")[-1] in ("_get_inner", "_slice_inner", "width"))]
+        R.check(not early, rule, key_of(fi, "range-resolved-when-checked"), fi.at(early[0]) if early else fi.site,
+                f"{fi.name}: writing a slice does not resolve its range against the parent's width" + ("" if not early else f" — `{ast.unparse(early[0])[:50]}` does, and the result is kept"),
+                why="`hi = m.a[4:8]; m.a.width = 6`: the slice keeps top=7 from the width it was written against, both width checks pass on the kept value, and the package has Slice(a, top=7) on a 6-bit signal")
+    if n < 2:
+        raise AnalysisError("anchor-vanished: the slice constructor sites (_slice, Slice.__post_init__)")
